@@ -89,11 +89,11 @@ DECOYS = {
     "query": [("?@%s", "decoy-at"), ("?u=x.%s/abc", "decoy-sub"), ("?u=%s/abc", "decoy-bare"), ("?u=http://%s/abc", "decoy-url")],
     "frag": [("#@%s", "decoy-at"), ("#x.%s/", "decoy-sub"), ("#%s", "decoy-bare")],
 }
-HOSTCLASSES = ("exact", "upper", "subdomain", "subdomain2", "subdomain3", "upper-subdomain", "glued-label", "glued-label2", "foreign-suffix", "dot-replaced")
-HC_FLOOR = {"exact": "host-exact", "upper": "host-upper", "subdomain": "host-subdomain", "subdomain2": "host-subdomain", "subdomain3": "host-subdomain", "upper-subdomain": "host-upper",
+HOSTCLASSES = ("exact", "upper", "subdomain", "subdomain2", "subdomain3", "subdomain4", "subdomain5", "subdomain6", "upper-subdomain", "glued-label", "glued-label2", "foreign-suffix", "dot-replaced")
+HC_FLOOR = {"exact": "host-exact", "upper": "host-upper", "subdomain": "host-subdomain", "subdomain2": "host-subdomain", "subdomain3": "host-subdomain", "subdomain4": "host-subdomain", "subdomain5": "host-subdomain", "subdomain6": "host-subdomain", "upper-subdomain": "host-upper",
             "glued-label": "host-glued-label", "glued-label2": "host-glued-label", "foreign-suffix": "host-foreign-suffix", "dot-replaced": "host-dot-replaced",
             "foreign": "host-foreign", "foreign-dotless": "host-foreign", "l-prefixed": "host-l-prefixed"}
-HC_MECH = {"subdomain2": "subdomain", "subdomain3": "subdomain", "glued-label2": "glued-label", "upper-subdomain": "upper"}
+HC_MECH = {"subdomain2": "subdomain", "subdomain3": "subdomain", "subdomain4": "subdomain", "subdomain5": "subdomain", "subdomain6": "subdomain", "glued-label2": "glued-label", "upper-subdomain": "upper"}
 
 
 def member(host, domset):
@@ -199,6 +199,12 @@ def host_of(dom, hc):
         return "a.b-c." + dom
     if hc == "subdomain3":
         return "my_shop.café." + dom  # labels a hostname may carry in the wild: underscore, non-ASCII
+    if hc == "subdomain4":
+        return "a" * 70 + "." + dom  # a leading label longer than DNS allows is still a label
+    if hc == "subdomain5":
+        return "localhost." + dom  # leading labels that look like a special host
+    if hc == "subdomain6":
+        return "8.8.8.8." + dom
     if hc == "upper-subdomain":
         return ("M." + dom.upper()) if dom.isascii() else None
     if hc == "glued-label":
